@@ -42,6 +42,7 @@ def run(p: Project, tier: str) -> Result:
     check_transitions(p, r)
     check_gate(p, r)
     check_delayed_interrupts(p, r)
+    check_stall_delay_conversion(p, r)
     check_interrupters(p, reach, r)
     return r
 
@@ -436,6 +437,54 @@ def check_delayed_interrupts(p, r):
         else:
             r.fail('C13.R6', key, 'the release transition does not cancel the delayed interrupts scheduled during the stall: they fire after the release and '
                                   'freeze items on a moving belt', src(fi.module), rel.lineno)
+
+
+# ------------------------------------------------------------------------------------------- R7
+def check_stall_delay_conversion(p, r):
+    """Sibling agreement: while an accumulating belt is stalled, a trailing item keeps moving for <number of empty slots ahead>; that
+    count is converted to time at several sites of the store (planned stall, item admitted during the stall).  All sites must apply the
+    same factor, and for the continuous belt it must be item_length / speed - otherwise a trailing item runs too long and overtakes /
+    overlaps the item ahead."""
+    from .c12 import norm_product
+    r.rule('C13.R7', 'every site that converts a slot count into a stall delay uses the same factor (item length / speed)', 2)
+    seen = set()
+    for s in belt_store_classes(p):
+        sites = []
+        for ci in p.mro(s.ci.key):
+            for fi in ci.methods.values():
+                if fi.key in seen:
+                    continue
+                # functions that hand a delay to _delayed_interrupt
+                spawns = [n for n in walk_no_nested(fi.node) if isinstance(n, ast.Call) and ast.unparse(n.func) == 'self._delayed_interrupt' and len(n.args) >= 2
+                          and isinstance(n.args[1], ast.Name)]
+                if not spawns:
+                    continue
+                seen.add(fi.key)
+                dvar = spawns[0].args[1].id
+                convs = [n for n in walk_no_nested(fi.node) if isinstance(n, ast.Assign) and len(n.targets) == 1 and isinstance(n.targets[0], ast.Name)
+                         and n.targets[0].id == dvar and isinstance(n.value, ast.BinOp) and isinstance(n.value.op, ast.Mult)]
+                for c in convs:
+                    num, den = norm_product(c.value)
+                    num = [x for x in num if x != dvar]
+                    sites.append((fi, c, (tuple(sorted(num)), tuple(sorted(den)))))
+        if not sites:
+            continue
+        factors = {f for _, _, f in sites}
+        want = (('item_length',), ('self.speed',))
+        for fi, c, f in sites:
+            r.analysed_functions.add(fi.key)
+            key = f'{fi.key}::stall-delay-conversion'
+            txt = ' · '.join(f[0]) + (' / ' + ' · '.join(f[1]) if f[1] else '')
+            if len(factors) > 1 and f != want:
+                others = sorted({o.qual for o, _, g in sites if g != f})
+                r.fail('C13.R7', key, f'slot count is converted to time with the factor `{txt}` here, but with another factor in {others}: the sites disagree, '
+                                      f'so after a stall a trailing item keeps moving for the wrong time and overtakes or overlaps the item ahead', src(fi.module), c.lineno)
+            elif f != want and any('speed' in x for g in factors for x in g[1]) is False and 'speed' in ast.unparse(fi.node):
+                r.fail('C13.R7', key, f'slot count is converted with `{txt}`, not with item_length / speed', src(fi.module), c.lineno)
+            elif f != want and len(factors) == 1 and ('item_length',) == f[0] and not f[1]:
+                r.fail('C13.R7', key, f'slot count is converted with `{txt}`: the belt speed is missing from the conversion', src(fi.module), c.lineno)
+            else:
+                r.ok('C13.R7', key, f'factor {txt}', src(fi.module), c.lineno)
 
 
 # ------------------------------------------------------------------------------------------- R5
